@@ -89,13 +89,18 @@ def pick_names(rng, pool, n, avoid=()):
 
 def gen_grammar(rng, adversarial=0.3, max_nts=6, max_terms=5, allow_empty_terminals=True,
                 behaviour=False, bias_lalr=0.6, motifs=0.45, wide=0.05, payload_like_nt=0.0, empty_helper_enum=0.0,
-                name_relations=0.15):
+                name_relations=0.15, many_terminals=0.08, min_sizes=False):
     """Random grammar.  behaviour=True: payload types come from the fixed menu the
     compiled-parser harness knows how to build, and every type derives Debug."""
     g = Grammar()
     nn = rng.randint(1, max_nts)
     nt_lo = 0 if allow_empty_terminals and rng.random() < 0.05 else 1
     nterm = rng.randint(nt_lo, max_terms)
+    if min_sizes:
+        nn, nterm = max_nts, max_terms
+    elif rng.random() < many_terminals:
+        # two-digit terminal indices (11..24 terminals with mixed payload types)
+        nterm = rng.randint(11, 24)
     use_adv = rng.random() < adversarial
     nt_pool = (HELPER_NAMES + RESERVED_CASE_NAMES + UNDERSCORE_NAMES + PLAIN_NAMES) if use_adv else PLAIN_NAMES
     if rng.random() < 0.1:
@@ -187,6 +192,26 @@ def add_name_relations(rng, g, behaviour=False):
     in sibling variants with identical surroundings (`.. X N ..` next to `.. XN ..`)."""
     used = {n['name'] for n in g.nts} | {t for t, _ in g.terminals} | {g.tenum}
     types = PAYLOAD_TYPES[:5] if behaviour else PAYLOAD_TYPES
+    r = rng.random()
+    if r < 0.3 and g.terminals:
+        # a helper name of the generator together with numbered variants of it, contiguous or with gaps
+        # (the generator's fresh names are X2, X3, ..: which one is free depends on all of them)
+        x = rng.choice(['State', 'Node', 'Action', 'RuleKind', 'Eof', 'Quasiterminal', 'QuasiterminalKind', 'NonterminalKind', 'S',
+                        'ACTION_TABLE', 'GOTO_TABLE'])
+        nums = rng.choice([[2, 4], [3, 5], [2, 3], [7], [2, 3, 5], [2, 10], [4, 2, 9], [3]])
+        names = [x] + [x + str(k) for k in nums]
+        if not any(n in used or n in RUST_RESERVED for n in names):
+            tn = [t for t, _ in g.terminals]
+            as_terminal = rng.random() < 0.3
+            for n in names:
+                if as_terminal:
+                    g.terminals.append((n, rng.choice(types)))
+                else:
+                    g.nts.append(_mk('struct', n, [(None, _wrap(rng, [('T', rng.choice(tn))]))], behaviour))
+            nm = _fresh_nt(g, 'Numd')
+            g.nts.append(_mk('struct', nm, [(None, _wrap(rng, [('T' if as_terminal else 'N', n) for n in names]))], behaviour))
+            _hook(rng, g, ('N', nm), behaviour)
+        return
     r = rng.random()
     if r < 0.5 and g.terminals:
         # case variant of an existing terminal
@@ -865,6 +890,8 @@ def gen_first_stress(rng, behaviour=False):
     productions, mutual and left recursion, declaration order unrelated to dependency order (the fixpoint's passes follow
     the declaration order, so when a fact arrives — and in which pass nothing else changes — depends on it)."""
     g = Grammar()
+    if rng.random() < 0.25:
+        return _first_chain(rng, g, behaviour)
     nn = rng.randint(2, 6)
     nt = rng.randint(1, 3)
     names = pick_names(rng, list(PLAIN_NAMES), nn, avoid=RUST_RESERVED)
@@ -897,6 +924,48 @@ def gen_first_stress(rng, behaviour=False):
                         break
             g.nts.append(_mk('enum', name, variants, behaviour))
     rng.shuffle(g.nts)
+    return g
+
+
+def _first_chain(rng, g, behaviour):
+    """A chain of unit productions A1 -> A2 -> .. -> Ak declared top-down (or in a random order), nullable at the bottom,
+    with a feedback rule C -> A1 t, Ak -> C: nullability climbs the chain one level per pass and only then does `t` travel
+    round the feedback and climb it again — about 2k passes for about k rules.  Few other rules."""
+    k = rng.randint(3, 9)
+    names = pick_names(rng, list(PLAIN_NAMES), k + 3, avoid=RUST_RESERVED)
+    chain, fb, pre, top = names[:k], names[k], names[k + 1], names[k + 2]
+    tnames = pick_names(rng, list(TERMINAL_NAMES), 4, avoid=set(names) | RUST_RESERVED)
+    t, end, item, stop = tnames
+    g.tenum = 'Tok'
+    g.tenum_attrs = ['#[derive(Debug)]'] if behaviour else []
+    g.terminals = [(x, '()') for x in tnames]
+    nts = []
+    for i in range(k - 1):
+        nts.append(_mk('struct', chain[i], [(None, _wrap(rng, [('N', chain[i + 1])]))], behaviour))
+    bottom = [('Nil', ('empty',)), ('More', _wrap(rng, [('N', fb)] + ([('T', rng.choice(tnames))] if rng.random() < 0.5 else [])))]
+    nts.append(_mk('enum', chain[-1], bottom, behaviour))
+    fbrule = _mk('struct', fb, [(None, _wrap(rng, [('N', chain[0]), ('T', t)]))], behaviour)
+    shape = rng.random()
+    if shape < 0.4:
+        # nothing else: the chain is the grammar
+        g.start = chain[0]
+        extra = []
+    else:
+        # a context in which FIRST(chain[0]) decides a lookahead
+        g.start = top
+        extra = [_mk('enum', top, [('Body', _wrap(rng, [('N', pre), ('N', chain[0]), ('T', end)])),
+                                   ('Bare', _wrap(rng, [('T', rng.choice([t, item])), ('T', stop)]))], behaviour),
+                 _mk('struct', pre, [(None, ('empty',))], behaviour)]
+    order = rng.random()
+    if order < 0.6:
+        g.nts = extra + ([fbrule] if rng.random() < 0.5 else []) + nts
+        if fbrule not in g.nts:
+            g.nts.append(fbrule)
+    elif order < 0.8:
+        g.nts = nts[::-1] + [fbrule] + extra
+    else:
+        g.nts = extra + nts + [fbrule]
+        rng.shuffle(g.nts)
     return g
 
 
